@@ -239,9 +239,11 @@ def finish(pid, tier, seed, results, skipped, fatal, t0, out, extra=()):
             'faults_injected': {},
             'faults_note': 'no fault kind is injected: the anchored code has no clock, I/O, thread or peer for a fault to act on '
                            '(DESIGN.md section 1); the simulated dimensions are hash seed, renaming/insertion order, call history, '
-                           'ambient knobs and a tick clock',
+                           'ambient knobs and a tick clock' + ('; C19 also simulates the modification times of the answer files it writes (DESIGN.md 8.11)' if pid == 'C19' else ''),
             'components': {'real': ['all of gambatools under /repo/src (current working tree)', 'CPython set/dict ordering'],
-                           'stub': ['sys.stdout replaced by an in-memory sink']},
+                           'stub': ['sys.stdout replaced by an in-memory sink'] + (
+                               ['answer files of the check_*_language_from_file checkers: written by the harness, modification times set from a simulated file clock (os.utime), the real clock is never read']
+                               if pid == 'C19' else [])},
             'exhaustive': False,
         },
         'assumptions': meta['assumptions'],
